@@ -26,7 +26,7 @@ CLAUSES_OF = {
     "C07": {"failed", "insts.state", "insts.result", "waiter"},
     "C08": {"avail", "insts.held"},
     "C09": {"avail", "insts.held", "ready", "insts.ev", "insts.dstat", "insts.unsat"},
-    "C11": {"world", "phase", "insts.domain"},
+    "C11": {"world", "phase", "insts.domain", "insts.state", "insts.result", "failed"},
 }
 FAMILIES = {
     "C04": ["dag"], "C05": ["sub", "restart"], "C06": ["dag", "tok", "sub"], "C07": ["dag"],
@@ -127,7 +127,7 @@ def nontrivial(result):
 
 # ---------------------------------------------------------------- the check
 def run(prop, tier, replay=None, rep=None, finish=True):
-    rep = rep or Report(prop, tier, "model_checking")
+    rep = rep or Report(prop, tier, "fault_enumeration" if prop == "C11" else "model_checking")
     rep.assumptions += [
         "E1: helper threads, job processes and the main thread are scheduled by the engine; loop callbacks run in "
         "FIFO order as in asyncio; job processes follow the TaskRunner protocol as simulated by the engine "
@@ -190,6 +190,14 @@ def run(prop, tier, replay=None, rep=None, finish=True):
                     pl["slowprocs"] = b % 2 == 0
                     jobs.append((pl, "random", (s0 * 7919 + b) * 64 + k))
                     labels.append(f"{n}/killat{k}")
+            # ... and inside the launch block: after the spawn of the k-th launch, before its pid file is written
+            for k in range(0, 3):
+                for b in range(nbase * 2):
+                    pl = dict(allplans[n])
+                    pl["fault"] = ["spawned", k]
+                    pl["slowprocs"] = b % 2 == 0
+                    jobs.append((pl, "random", (s0 * 7919 + b) * 64 + k + 7))
+                    labels.append(f"{n}/die-after-spawn{k}")
     results = sched.execute(jobs)
     dfs = sched.execute_dfs([allplans[n] for n in DFS_PLANS[prop]], budget)
     exhaustive = []
